@@ -71,11 +71,18 @@ func (f *File) Apply(filename string, src []byte) (_ []byte, err error) {
 		cl := engine.NewChangelog()
 
 		vhook.Gate("replace")
-		fout, err = c.Replace(d, cl)
+		out, applied, err := c.Apply(d, cl)
 		if err != nil {
 			retErr = errors.Join(retErr, err)
+			fout = nil
 			continue
 		}
+		if !applied {
+			// Found, but nowhere the replacement can stand: this
+			// change didn't modify the file either.
+			continue
+		}
+		fout = out
 
 		vhook.Gate("diff")
 		snap = snap.Diff(fout, cl)
